@@ -102,7 +102,7 @@ ArgSpace(c) ==
 CallsWithArgs == {"wif", "wif_public", "wif_private", "public_master", "public_master_priv"}
 
 \* calls during which the implementation caches the WIF in the key object (a private object may cache what it likes)
-CachingCalls(kind) == IF kind = "key" THEN {"wif", "as_dict_priv", "info", "reflect"} ELSE {"wif", "info", "reflect"}
+CachingCalls(kind) == IF kind = "key" THEN {"wif", "as_dict_priv", "info"} ELSE {"wif", "info"}
 
 Public(D, s) == [s EXCEPT !.private = FALSE, !.scalar = {},
                           !.cache = IF "public-keeps-wif-cache" \in D THEN s.cache ELSE {}]
@@ -140,6 +140,8 @@ Act(D, s, c) ==
          \* default forms and its save() file are public views all the same
          [same EXCEPT !.st = [Clean("tx") EXCEPT !.private = TRUE, !.sig = SigSecret(D), !.cache = Public(D, s).cache,
                                                   !.given = s.scalar \cup s.cache]]
+    [] c = "reflect" -> [same EXCEPT !.out = Held(s),          \* reflection shows whatever the object holds
+                                     !.st = IF s.private /\ s.kind \in KeyKinds THEN [s EXCEPT !.cache = @ \cup {"wif"}] ELSE s]
     [] s.kind = "tx" /\ c = "save" -> [same EXCEPT !.out = SaveOut(D, s)]
     [] s.kind = "tx" /\ c = "load" ->
          [same EXCEPT !.st = [s EXCEPT !.private = FALSE,
